@@ -7,7 +7,7 @@ use indexmap::IndexMap;
 use proptest::prelude::*;
 use rateslib::calendars::{Cal, CalType, Convention, Modifier};
 use rateslib::curves::{CurveDF, FlatBackwardInterpolator, FlatForwardInterpolator, LinearInterpolator, LinearZeroRateInterpolator, LogLinearInterpolator, Nodes};
-use rateslib::dual::{ADOrder, Number};
+use rateslib::dual::{ADOrder, Dual, Dual2, Number};
 use rateslib::verif_hooks::{index_left_f64, index_left_i64, VCurve, VInterp};
 use serde::{Deserialize, Serialize};
 
@@ -19,6 +19,9 @@ pub enum Case {
         /// (timestamp seconds, value) in supply order; timestamps distinct
         nodes: Vec<(i64, Fl)>,
         queries: Vec<i64>,
+        /// number kind of the node values given to the generic constructor: 0 float, 1 first-order, 2 second-order
+        #[serde(default)]
+        kind: u8,
     },
     IndexLeft {
         list: Vec<Fl>,
@@ -201,9 +204,9 @@ fn next_up(x: f64) -> f64 {
 
 fn case_strategy() -> impl Strategy<Value = Case> {
     prop_oneof![
-        8 => (0u8..5, node_set(), proptest::collection::vec(query_spec(), 1..8)).prop_map(|(rule, nodes, qs)| {
+        8 => (0u8..5, node_set(), proptest::collection::vec(query_spec(), 1..8), prop::sample::select(vec![0u8, 0, 1, 2])).prop_map(|(rule, nodes, qs, kind)| {
             let queries = resolve_queries(&nodes, &qs);
-            Case::Curve { rule, nodes, queries }
+            Case::Curve { rule, nodes, queries, kind }
         }),
         2 => (proptest::collection::vec(0.01f64..10.0, 2..14), proptest::collection::vec((any::<u16>(), -1i8..=1, 0.0f64..1.0), 1..8), (-50.0f64..50.0)).prop_map(|(steps, probes, start)| {
             let mut x = start;
@@ -259,7 +262,9 @@ impl Property for C11 {
                     }
                 }
             }
-            Case::Curve { rule, nodes, queries } => {
+            Case::Curve { rule, nodes, queries, kind } => {
+                let kind = *kind % 3;
+                v.label(match kind { 0 => "values:float", 1 => "values:first-order", _ => "values:second-order" });
                 let rule = rule_of(*rule);
                 v.label(intern(format!("rule:{}", rule.name())));
                 let mut sorted: Vec<(i64, f64)> = nodes.iter().map(|(t, y)| (*t, y.0)).collect();
@@ -272,7 +277,13 @@ impl Property for C11 {
                 let supplied_sorted = nodes.iter().map(|x| x.0).collect::<Vec<_>>() == times;
                 v.label(if supplied_sorted { "supply:sorted" } else { "supply:shuffled" });
 
-                let mk_nodes = |ns: &[(i64, f64)]| Nodes::F64(IndexMap::from_iter(ns.iter().map(|(t, y)| (secs_to_ndt(*t), *y))));
+                // dual node values are tagged per node date so that both supply orders describe the same curve
+                let tag = |t: i64| vec![format!("n{}", times.iter().position(|u| *u == t).unwrap())];
+                let mk_nodes = |ns: &[(i64, f64)]| match kind {
+                    0 => Nodes::F64(IndexMap::from_iter(ns.iter().map(|(t, y)| (secs_to_ndt(*t), *y)))),
+                    1 => Nodes::Dual(IndexMap::from_iter(ns.iter().map(|(t, y)| (secs_to_ndt(*t), Dual::new(*y, tag(*t)))))),
+                    _ => Nodes::Dual2(IndexMap::from_iter(ns.iter().map(|(t, y)| (secs_to_ndt(*t), Dual2::new(*y, tag(*t)))))),
+                };
                 let supplied: Vec<(i64, f64)> = nodes.iter().map(|(t, y)| (*t, y.0)).collect();
                 let built = catch(|| {
                     let a = AnyCurve::new(rule, mk_nodes(&supplied), "crv", None);
@@ -323,7 +334,9 @@ impl Property for C11 {
                         );
                         return v;
                     }
-                    if g.to_bits() != gs.to_bits() || g.to_bits() != gh.to_bits() {
+                    // the hook curve always holds floats; dual node values may round differently
+                    let hook_agrees = if kind == 0 { g.to_bits() == gh.to_bits() } else { close(g, gh, 1e-12 * m.cond, 0.0) };
+                    if g.to_bits() != gs.to_bits() || !hook_agrees {
                         v.fail("value depends on the supply order of the nodes or on the constructor", format!("{}: shuffled {:e}, sorted {:e}, python-facing constructor {:e}", rule.name(), g, gs, gh));
                         return v;
                     }
@@ -363,7 +376,7 @@ impl Property for C11 {
     }
 
     fn rule(&self) -> String {
-        "random (rule, node set, query dates): 2-12 nodes with distinct timestamps, spacings from 1 second to ~6 years (mostly whole days), positive values (DF-like and general), supplied shuffled or sorted; 1-7 queries per curve drawn before the first node, after the last, exactly on nodes and 1 second either side, at interval midpoints and uniformly inside intervals. Every curve is built three ways (generic constructor with shuffled nodes, with sorted nodes, and the Python-facing constructor through the hook) and all must agree bit-for-bit and compare equal. Oracle: linear-scan interval choice and the closed form of each rule (1e-12; flat rules exact), node dates return node values, betweenness for linear/log-linear. Plus index_left on random strictly increasing float lists with probes at, between, just above and outside the entries. Non-trivial: >= 3 nodes and a query strictly inside an interior interval or exactly on an interior node (curves); lists of >= 3 entries (index_left).".into()
+        "random (rule, node set, query dates): 2-12 nodes with distinct timestamps, spacings from 1 second to ~6 years (mostly whole days), positive values (DF-like and general), supplied shuffled or sorted; 1-7 queries per curve drawn before the first node, after the last, exactly on nodes and 1 second either side, at interval midpoints and uniformly inside intervals. Every curve is built three ways (generic constructor with shuffled nodes, with sorted nodes - node values given as floats, first-order or second-order numbers tagged per node date - and the Python-facing constructor through the hook); the two generic curves must agree bit-for-bit and compare equal, the hook curve bit-for-bit for float values and to 1e-12 otherwise. Oracle: linear-scan interval choice and the closed form of each rule (1e-12; flat rules exact), node dates return node values, betweenness for linear/log-linear. Plus index_left on random strictly increasing float lists with probes at, between, just above and outside the entries. Non-trivial: >= 3 nodes and a query strictly inside an interior interval or exactly on an interior node (curves); lists of >= 3 entries (index_left).".into()
     }
 
     fn floors(&self, tier: Tier) -> Vec<Floor> {
@@ -378,6 +391,8 @@ impl Property for C11 {
             Floor { label: "supply:shuffled", min: n / 4 },
             Floor { label: "kind:index_left", min: n / 10 },
             Floor { label: "rule:linear_zero_rate", min: n / 10 },
+            Floor { label: "values:first-order", min: n / 10 },
+            Floor { label: "values:second-order", min: n / 10 },
         ]
     }
 }
